@@ -683,22 +683,6 @@ def _max_abs(r):
     return m
 
 
-def _sum_abs(r):
-    """Validate.sumAbs of the model: magnitudes of all ints / truncated finite floats, dict keys included"""
-    t = r['t']
-    if t in ('i', 'B'):
-        return abs(int(R.build(r)))
-    if t == 'f':
-        return abs(int(R.build(r))) if r['hex'] not in ('nan', 'inf', '-inf') else 0
-    if t in ('l', 'u'):
-        return sum(_sum_abs(x) for x in r['v'])
-    if t == 'd':
-        return sum(_sum_abs(k) + _sum_abs(v) for k, v in r['v'])
-    if t == 'x' and isinstance(r.get('v'), list):
-        return sum(_sum_abs(x) if isinstance(x, dict) else sum(_sum_abs(y) for y in x) for x in r['v'])
-    return 0
-
-
 def _has_x(r, kinds):
     return any(k in json.dumps(r) for k in kinds)
 
@@ -711,10 +695,8 @@ MATCHERS = {
             ((_info_files(case) or {}).get('t') == 'd') or
             ((_info_files(case) or {}).get('t') == 'x' and _info_files(case)['k'] == 'odict') or
             _unjoinable_path(case))),
-    # D07j: an int of more than 4300 digits formatted into a MetainfoError message (assert_type's repr() of
-    # the offending value, validate()'s 'Expected N pieces')
-    'huge_int_in_message': lambda case, obs, f: (
-        obs.get('kind') == 'internal:ValueError' and obs.get('op') != 'magnet-tail' and _sum_abs(case['md']) >= 10 ** 4300),
+    # (D07j — an int of more than 4300 digits formatted into a MetainfoError message — is repaired in /repo
+    # 3420ff7; its matcher is gone, the witnesses are regression cases in corpus/C07/d07j-*.json)
     # D07i: magnet() reads announce-list / url-list back through getters that raise URLError/TypeError
     'magnet_tail': lambda case, obs, f: (
         obs.get('op') == 'magnet-tail' and obs.get('kind') in ('internal:URLError', 'internal:TypeError',
@@ -836,7 +818,7 @@ def evaluate(ctx, drv, cases):
             if 'err' in m and m['err'] == 'value':
                 ctx.machinery_error(f'model {name} leaked ValueError', case)
             if 'err' in m and m['err'].startswith('internal') and thm and (name != 'magnet' or rep['hypMagnet']):
-                ctx.machinery_error(f'model {name} = {m["err"]} under the hypothesis outsideD07fD07j of C07_validate_only_metainfo_error / C07_only_metainfo_error_*_partial', case)
+                ctx.machinery_error(f'model {name} = {m["err"]} under the hypothesis outsideD07f of C07_validate_only_metainfo_error / C07_only_metainfo_error_*_partial', case)
         if 'ok' in rep['dump'] and not (rep['modelSound'] or {}).get('sound'):
             ctx.machinery_error('model dump not Sound although C07_export_sound is proved', case)
         if ('ok' in rep['ready'] and rep['ready']['ok']) != ('ok' in rep['validate']):
@@ -895,8 +877,9 @@ def run(ctx, drv):
     ctx.notes['assumptions'] = [
         'URL well-formedness is a parameter of model and specification; the harness computes it with urllib '
         '(urlparse succeeds, .port readable, scheme and netloc non-empty), independently of torf.utils.is_url',
-        'the expected piece count is exact integer arithmetic in code and model (numbers of any size); the '
-        'int->str limit of 4300 digits in error messages is modelled (finding D07j)',
+        'the expected piece count is exact integer arithmetic in code and model (numbers of any size); MetainfoError '
+        'messages are built with utils.safe_repr (/repo 3420ff7), so an offending value of any size or shape gives '
+        'MetainfoError in code and model (D07j repaired; regression witnesses corpus/C07/d07j-*.json)',
         'Python dicts have pairwise distinct keys: every in-domain case satisfies Codec.wf (checked, machinery error otherwise)',
         'nesting depth <= 100 for the model correspondence (CPython recursion limit is not modelled); deeper and cyclic '
         'values are checked implementation-vs-specification: exports must raise MetainfoError (D07g, repaired in /repo 19d011f)',
